@@ -2004,6 +2004,56 @@ def functions():
         return "Definition g_serve (magic_ok : bool) (reqs : list sreq) : list veff :=\n  %s." % text
     out.append(("serve", "src/bin/copia/serve.rs serve", None, t_serve))
 
+    def client_rewrite(n):
+        """self.send(x) / self.recv() / self.w.flush() -> plain calls, `match self.recv()? {..}` -> the reply parameter"""
+        if isinstance(n, tuple):
+            if len(n) == 4 and n[0] == "mcall" and n[1] == ("path", ["self"]) and n[2] == "send":
+                return ("call", ("path", ["SELF_SEND"]), [client_rewrite(a) for a in n[3]])
+            if len(n) == 4 and n[0] == "mcall" and n[1] == ("field", ("path", ["self"]), "w") and n[2] == "flush" and not n[3]:
+                return ("call", ("path", ["SELF_FLUSH"]), [])
+            if len(n) == 3 and n[0] == "match" and n[1] == ("try", ("mcall", ("path", ["self"]), "recv", [])):
+                return ("block", [("expr", ("call", ("path", ["SELF_RECV"]), []), True)], ("match", ("path", ["REPLY"]), client_rewrite(n[2])))
+            if len(n) == 3 and n[0] == "field" and n[1] == ("path", ["self"]) and n[2] == "w":
+                return ("path", ["SELF_W"])
+            return tuple(client_rewrite(x) for x in n)
+        if isinstance(n, list):
+            return [client_rewrite(x) for x in n]
+        return n
+
+    def t_client_put():
+        src = read("src/bin/copia/hub.rs")
+        params, ret, body = R.find_fn(src, "put", "HubClient")
+        if [n for n, _ in params] != ["self", "rel", "expected", "local", "hash"]:
+            raise Unsupported("signature of HubClient::put is %s" % params)
+        body2 = client_rewrite(body)
+        spec = dict(try_transparent=True, rename={"local": "content", "self": "tt"},
+                    calls={"std::fs::metadata": ("{0}", "Vec<u8>"), "std::fs::File::open": ("{0}", "Vec<u8>")},
+                    consts={"REPLY": ("reply", "Response"), "SELF_W": ("tt", "W")},
+                    structs={"Request::Put": ("SPut", ["path", "expected", "len", "hash"], ["String", "Option<Hash>", "u64", "Hash"]),
+                             "Response::PutResult": ("RPut", ["committed", "current"], ["bool", "Option<Hash>"])},
+                    effects={"SELF_SEND": "CSend {0}", "std::io::copy": "CStream {0} (* {1} *)", "SELF_FLUSH": "CFlush", "SELF_RECV": "CRecv"},
+                    ok=lambda s_: "(effs, Some %s)" % paren(s_), errs=[(r"expected PutResult", "(effs, None)")], prologue="let effs := [] in ")
+        fn = Fn(spec)
+        env = {"self": "HubClient", "rel": "str", "expected": "Option<Hash>", "local": "Vec<u8>", "hash": "Hash"}
+        text = spec["prologue"] + fn.block(body2, env, Ctx(val=(lambda x: x), ret=(lambda x: x), fall=None))
+        return "Definition g_client_put (rel : list Z) (expected : option D) (content : list Z) (hash : D) (reply : sreply) : list ceff * option bool :=\n  %s." % text
+    out.append(("client_put", "src/bin/copia/hub.rs HubClient::put", None, t_client_put))
+
+    def t_client_list():
+        src = read("src/bin/copia/hub.rs")
+        params, ret, body = R.find_fn(src, "list", "HubClient")
+        if [n for n, _ in params] != ["self"]:
+            raise Unsupported("signature of HubClient::list is %s" % params)
+        body2 = client_rewrite(body)
+        spec = dict(try_transparent=True, rename={"self": "tt"}, consts={"REPLY": ("reply", "Response")},
+                    paths={"Request::List": "SList", "Response::Fingerprints": "RFingerprints"},
+                    effects={"SELF_SEND": "CSend {0}", "SELF_RECV": "CRecv"},
+                    ok=lambda s_: "(effs, Some %s)" % paren(s_), errs=[(r"expected Fingerprints", "(effs, None)")], prologue="let effs := [] in ")
+        fn = Fn(spec)
+        text = spec["prologue"] + fn.block(body2, {"self": "HubClient"}, Ctx(val=(lambda x: x), ret=(lambda x: x), fall=None))
+        return "Definition g_client_list (reply : sreply) : list ceff * option (list (list Z * D)) :=\n  %s." % text
+    out.append(("client_list", "src/bin/copia/hub.rs HubClient::list", None, t_client_list))
+
     def t_run_remote():
         src = read("src/bin/copia/incremental.rs")
         params, ret, body = R.find_fn(src, "run_remote", None)
@@ -2094,6 +2144,7 @@ GROUPS = {
     "BisyncRun": ("", "bisyncrun", ["run_bisync"]),
     "HubSync": ("", "hubsync", ["hub_sync"]),
     "ServeLoop": ("", "serveloop", ["serve"]),
+    "HubWireClient": ("", "hubwireclient", ["client_put", "client_list"]),
     "BisyncSys": ("", "bisyncsys", ["copy_atomic"]),
     "ArchiveSave": ("Model.ArchiveSys", "archivesys", ["archive_save"]),
     "OneWaySys": ("Model.OneWaySys", "onewaysys", ["tmp_path", "deliver_local", "deliver_pull"]),
@@ -2237,6 +2288,12 @@ def main():
                     "Inductive veff := VMkdir (p : place) | VBadPrologue | VReply (r : vreply) | VList | VGet (path : list Z)\n"
                     "  | VPut (path : list Z) (expected : option D) (len : Z) (hash : D) | VDelete (path : list Z) (expected : option D).\n\n"
                     + "\n".join(texts) + "End WithDigest.\n")
+        elif digest == "hubwireclient":
+            body = ("(** GENERATED by tools/gen_logic.py from /repo's CURRENT source - do not edit.\n    hub.rs `HubClient::put` / `HubClient::list` as what they put on the wire, in order, and what they return for the\n"
+                    "    reply that comes back ([content] = the bytes of the local file, which `metadata(..).len()` measures and\n    `io::copy` streams). *)\n"
+                    "From stdpp Require Import gmap.\nFrom Copia Require Import Model.LoopLib Model.Hub Model.SafeJoin Model.HubSeq.\n\n"
+                    "Section WithDigest.\nContext {D : Type}.\nNotation sreq := (@HubSeq.sreq D).\nNotation sreply := (@HubSeq.sreply D).\n"
+                    "Inductive ceff := CSend (r : sreq) | CStream (c : list Z) | CFlush | CRecv.\n\n" + "\n".join(texts) + "End WithDigest.\n")
         elif digest == "archivesys":
             body = (HEADER % (group, imports)) + "\nSection WithFs.\nVariable path_exists : apath -> bool.   (* path.exists() *)\n\n" + "\n".join(texts) + "End WithFs.\n"
         elif digest == "onewaysys":
